@@ -177,7 +177,7 @@ def displacements(b):
         return
     hdr_ok = ast.unparse(loops[0].iter) == "range(radius_n)" and "tidal_solution_y.shape[1]" in ast.unparse(fn.node) and \
         "y1 = tidal_solution_y[0, :]" in ast.unparse(fn.node) and "y3 = tidal_solution_y[2, :]" in ast.unparse(fn.node)
-    ground(b, f"{fn.key}::loop_header", fn.key, "loop runs over all radial slices; y1, y3 are rows 0 and 2 of the solution", hdr_ok)
+    structural(b, f"{fn.key}::loop_header", fn.key, "loop runs over all radial slices; y1, y3 are rows 0 and 2 of the solution", "ok" if hdr_ok else "unknown", detail=ast.unparse(loops[0].iter))
     ri = sp.Symbol("ri_idx", integer=True)
     outs = {k: SymArray(k, complex_=True, shape=(R("n_r"), R("n1"), R("n2"), R("n3"))) for k in ("radial_displacement", "polar_displacement", "azimuthal_displacement")}
     env = dict(tidal_potential=U, tidal_potential_partial_theta=Ut, tidal_potential_partial_phi=Up, colatitude=R("colatitude"), ri=ri,
